@@ -128,6 +128,41 @@ fn main() {
         }
     }
 
+    // ---- the same for an input list written by the checker (one hex-encoded input per line):
+    // real-world vocabulary in every position, order hazards, one identifier of every length,
+    // multi-byte text, every likelySubtags key/value and layout locale
+    o.begin("corpus");
+    if let Ok(path) = std::env::var("C20_CORPUS") {
+        if let Ok(txt) = std::fs::read_to_string(&path) {
+            for h in txt.lines() {
+                let bytes: Vec<u8> = (0..h.len() / 2).filter_map(|i| u8::from_str_radix(&h[2 * i..2 * i + 2], 16).ok()).collect();
+                s.clear();
+                let _ = write!(s, "{} ", h);
+                match LanguageIdentifier::from_bytes(&bytes) {
+                    Ok(li) => {
+                        let _ = write!(s, "LI=Ok({:?}|{}) ", li, li);
+                    }
+                    Err(e) => {
+                        let _ = write!(s, "LI=Err({:?}) ", e);
+                    }
+                }
+                match Locale::from_bytes(&bytes) {
+                    Ok(l) => {
+                        let _ = write!(s, "LOC=Ok({:?}|{}) ", l, l);
+                    }
+                    Err(e) => {
+                        let _ = write!(s, "LOC=Err({:?}) ", e);
+                    }
+                }
+                let _ = write!(s, "C1={:?} C2={:?}", unic_langid::canonicalize(&bytes), unic_locale::canonicalize(&bytes));
+                if let Ok(t) = std::str::from_utf8(&bytes) {
+                    let _ = write!(s, " P1={:?} P2={:?}", t.parse::<LanguageIdentifier>().map(|x| x.to_string()), t.parse::<Locale>().map(|x| x.to_string()));
+                }
+                o.line(&s);
+            }
+        }
+    }
+
     // ---- comparing: the sorted order of every accepted value, equality with &str
     o.begin("order");
     for li in &ids {
